@@ -33,7 +33,7 @@ def refuted_class(s):
         if b[8] == 0 and len(b) > 14 and b[13] != 8:
             return "C06_reader_superblock_v0_offsets_refuted (version 0, size of offsets not 8)"
         if b[8] == 0 and any(b[24:32]):
-            return "superblock_v0_base_refuted (version 0, base address not 0)"
+            return "C06_reader_superblock_v0_base_refuted (version 0, base address not 0)"
     if k == "msg-attribute" and len(b) > 0 and b[0] == 2:
         return "C06_reader_attribute_v2_padding_refuted (attribute message version 2)"
     if k == "msg-dataspace" and len(b) >= 4 and b[0] == 2 and b[1] == 0 and b[3] == 1:
